@@ -1,12 +1,15 @@
 #!/bin/bash
 # Must-fail corpus: every hand-written mutant (selftest/mutants/*.mut) and every seeded change (seeded/*/patch.diff)
-# has to be reported as a VIOLATION by the check of its property. Mutants are applied to /repo's working tree
-# (which must be clean) and reverted; seeded changes run on scratch worktrees.
+# has to be reported as a VIOLATION by the check of its property. Mutants are applied to a scratch copy of /repo's
+# working tree under /var/tmp (removed afterwards); seeded changes run on scratch worktrees.
 cd /verif
 miss=0
+scratch=/var/tmp/verif-selftest-$$
+rm -rf $scratch && mkdir -p $scratch && rsync -a --exclude .git /repo/ $scratch/
+trap 'rm -rf $scratch /verif/evidence/*.selftest' EXIT
 for m in selftest/mutants/*.mut; do
   p=$(basename $m .mut)
-  out=$(./tools_mut.py $p $m 2>&1)
+  out=$(VERIF_REPO=$scratch VERIF_EVIDENCE_SUFFIX=.selftest ./tools_mut.py $p $m 2>&1)
   echo "$out" | grep -E "MISSED|caught=" | sed "s/^/$p: /"
   echo "$out" | grep -q "MISSED" && miss=1
 done
